@@ -259,7 +259,7 @@ func (c02) Gen(r *Rand, idx int, tier string) interface{} {
 		np := len(peer.Packetise(body, p.Cuts, peer.BufResponse, 0, true))
 		p.Empty = append(p.Empty, r.Intn(np+1))
 	}
-	p.QueueSize = Pick(r, []int{1, 2, 3, 5, 100})
+	p.QueueSize = Pick(r, []int{0, 1, 2, 3, 5, 100})
 	p.Async = r.Pct(50)
 	p.Twin = r.Pct(15)
 	p.Logical = r.Pct(25)
